@@ -208,6 +208,8 @@ def run(tier, res, replay=None):
             pf = [round(rng.uniform(0.3, 1.0), 3) for _ in range(n)]
             ajobs.append((f'apply{k}-n{n}', {
                 'seed': k, 'names': names, 'pf': pf,
+                'objective': ['peak coolant temp', 'peak clad MW temp',
+                              'peak fuel temp', 'peak clad ID temp'][k % 4],
                 'ng': rng.choice([2, 3]) if len(grouped) >= 4 else 2}))
     elif 'names' in jobs[0][1]:
         ajobs, jobs = jobs, []
